@@ -477,7 +477,13 @@ def object_shapes(nm: Namer) -> Dict[str, Callable[[T, Ctx], Optional[T]]]:
             return Obj(
                 "dataclass",
                 nm("O"),
-                (F("a", x, cons=(("min", -2), ("max", 5))), F("b", x, default="0", has_default=True, default_value=0, cons=(("max", 5),))),
+                (
+                    F("a", x, cons=(("min", -2), ("max", 5))),
+                    F("b", x, default="0", has_default=True, default_value=0, cons=(("max", 5),)),
+                    # the second layer as a second annotation of the same Annotated (typing flattens them): both layers hold
+                    F("c", Con(x, (("max", 5),)), default="0", has_default=True, default_value=0),
+                    F("d", Con(Con(x, (("exc_min", -1),)), (("max", 5),)), default="0", has_default=True, default_value=0),
+                ),
             )
         if isinstance(rx, AnyT):
             # numeric constraints at an Any position bear on numbers only (a boolean is not a number)
